@@ -28,8 +28,8 @@ def plan(tier, seed):
     thorough = tier == "thorough"
     n = 16
     jobs = [{"variant": "c" if s % 4 else "py", "part": "kernel", "shard": s, "nshards": n, "params": {"maxlen": 5 if thorough else 4}} for s in range(n)]
-    nr = 8 if thorough else 2
-    jobs += [{"variant": "c" if s % 2 else "py", "part": "random", "shard": s, "nshards": nr, "params": {"n": 40000 if thorough else 6000}} for s in range(nr)]
+    nr = 16 if thorough else 2
+    jobs += [{"variant": "c" if s % 2 else "py", "part": "random", "shard": s, "nshards": nr, "params": {"n": 150000 if thorough else 6000}} for s in range(nr)]
     return jobs
 
 
